@@ -142,7 +142,7 @@ def run(repo, res, tier):
     res.rule("RT-WRITTEN", "every schema-allowed name the reader looks up is emitted by the writer", 30)
     res.rule("RT-FLOW", "reader constructor keywords are fed from the leaves the writer fills from the corresponding attribute", 45)
     res.rule("RT-NAMEMAP", "attribute-name maps of writer and reader agree / invert each other", 40)
-    res.rule("RT-ENUM", "text<->enum / boolean encodings are mutually inverse and exhaustive", 12)
+    res.rule("RT-ENUM", "text<->enum / boolean encodings are mutually inverse and exhaustive", 25)
     res.rule("RT-ORDER", "ordered collections keep their order; x,y <-> indices 0,1", 12)
     res.rule("RT-PREC", "the number formatter keeps precision.decimals fractional digits on every path", 2)
     precision_rule(repo, res)
@@ -526,17 +526,11 @@ def run(repo, res, tier):
             res.check("RT-NAMEMAP", "goal attribute %s: plain camel case = mapped name" % f, c03.snake_to_camel(f) == wmap(f), wmod, wmap.fn, "goal attribute %s" % f, "goal states are written under another element name than read", qualname="StateXMLNode.create_goal_state_node")
 
     # ------------------------------------------------------------------ RT-ENUM
-    tlf = rm.funcs[("TrafficLightFactory", "create_from_xml_node")].fn
-    enum = repo.resolve_class(rmod, "TrafficLightDirection")
-    members = {k: v.value for k, v in enum.enum_members().items() if isinstance(v, ast.Constant)}
-    chain = {}
-    for n in walk_no_nested(tlf):
-        if isinstance(n, ast.If) and isinstance(n.test, ast.Compare) and "find('direction').text" in norm(n.test.left) and isinstance(n.test.comparators[0], ast.Constant):
-            a = n.body[0]
-            if isinstance(a, ast.Assign) and isinstance(a.value, ast.Attribute):
-                chain[n.test.comparators[0].value] = a.value.attr
-    ok = set(chain) == set(members.values()) and all(members.get(m) == t for t, m in chain.items())
-    res.check("RT-ENUM", "traffic light direction: reader chain %s covers %s" % (sorted(chain), sorted(members.values())), ok, rmod, tlf, "TrafficLightFactory direction chain %s vs enum %s" % (sorted(chain.items()), sorted(members.items())), "a direction value the writer emits is read back as another member (or falls through to ALL)", qualname="TrafficLightFactory.create_from_xml_node")
+    # traffic light direction / activity: decided by an evaluated write -> read round trip through the element model
+    from . import c01ev
+
+    c01ev.traffic_light_roundtrip(repo, res, "RT-ENUM")
+    c01ev.shared_reference_rule(repo, res, "RT-READ")
     # booleans
     rb = rm.funcs[("SignalStateFactory", "_read_boolean")].fn
     t = " ; ".join(norm(s) for s in rb.body)
